@@ -18,6 +18,18 @@ def _child_main(argv):
     from mc import ea
     if sys.flags.optimize < 1:
         raise SystemExit('ea_o child must run under -O')
+    if argv[0] == '--shard':
+        # python -O -m mc.ea_o --shard <module> <function> <payload.json> <shard> <nshards> <outfile>
+        mod = importlib.import_module(argv[1])
+        payload = common.loads(open(argv[3]).read())
+        st = getattr(mod, argv[2])(int(argv[4]), int(argv[5]), payload)
+        for v in st.violations:
+            if not v['sig'].startswith('python -O: '):
+                v['sig'] = 'python -O: ' + v['sig']
+                v['what'] = '[python -O] ' + v['what']
+            v['case'] = dict(v['case'], optimized=True)
+        pickle.dump(st, open(argv[6], 'wb'))
+        return
     if argv[0] == '--replay':
         mod = importlib.import_module(argv[1])
         case = common.loads(open(argv[2]).read())
@@ -57,6 +69,31 @@ def run(module_name, tier, nproc=None):
         for i in range(nproc):
             out = os.path.join(tmp, 'o%d.pkl' % i)
             procs.append((out, subprocess.Popen([sys.executable, '-O', '-m', 'mc.ea_o', module_name, tier, str(i), str(nproc), out],
+                                                cwd=common.VERIF, stdout=subprocess.PIPE, stderr=subprocess.STDOUT)))
+        st = Stats()
+        for out, p in procs:
+            text = p.communicate()[0].decode('utf-8', 'replace')
+            if p.returncode != 0 or not os.path.exists(out):
+                st.notes.append('HARNESS: the python -O child failed (%d): %s' % (p.returncode, text[-400:]))
+                continue
+            st.merge(pickle.load(open(out, 'rb')))
+        return st
+    finally:
+        import shutil
+        shutil.rmtree(tmp, ignore_errors=True)
+
+
+def run_shard(module_name, func, payload, nproc=None):
+    """a check's own shard function (shard, nshards, payload) -> Stats once more in child interpreters started with -O"""
+    nproc = nproc or min(8, common.NPROC)
+    tmp = tempfile.mkdtemp(prefix='bverif-o-', dir='/dev/shm' if os.path.isdir('/dev/shm') else None)
+    try:
+        pf = os.path.join(tmp, 'payload.json')
+        open(pf, 'w').write(common.dumps(payload))
+        procs = []
+        for i in range(nproc):
+            out = os.path.join(tmp, 'o%d.pkl' % i)
+            procs.append((out, subprocess.Popen([sys.executable, '-O', '-m', 'mc.ea_o', '--shard', module_name, func, pf, str(i), str(nproc), out],
                                                 cwd=common.VERIF, stdout=subprocess.PIPE, stderr=subprocess.STDOUT)))
         st = Stats()
         for out, p in procs:
